@@ -2,6 +2,7 @@
 """Runs every registered check against behaviour-preserving refactorings delivered by sub-agents (scratch copies of
 /repo via VF_REPO; /repo itself is not touched) and records the outcome under /verif/refactors/<id>/."""
 import json, os, re, shutil, subprocess, sys, time
+os.environ['VF_EVIDENCE_DIR'] = '/tmp/vf_evidence_scratch'   # never overwrite the committed evidence from a changed tree
 VERIF = os.path.dirname(os.path.dirname(os.path.abspath(__file__)))
 
 
